@@ -4,6 +4,7 @@
 //   mtblsim replay FILE [-v]
 #include "common.h"
 #include "../sim/simsched.h"
+#include <sys/personality.h>
 #include <unistd.h>
 
 static const Engine *const engines[] = { &engine_table, &engine_merge, &engine_sorter, &engine_fileset,
@@ -40,6 +41,15 @@ static const char *arg(int argc, char **argv, const char *name, const char *def)
 int main(int argc, char **argv)
 {
 	if (argc < 2) { fprintf(stderr, "usage: mtblsim run|gen|replay ...\n"); return 2; }
+	// address-space layout is a source of nondeterminism for wild reads: switch it off and re-exec
+	{
+		int pers = personality(0xffffffff);
+		if (pers != -1 && !(pers & ADDR_NO_RANDOMIZE) && !getenv("MTBLSIM_NOREEXEC")) {
+			personality(pers | ADDR_NO_RANDOMIZE);
+			setenv("MTBLSIM_NOREEXEC", "1", 1);
+			execv("/proc/self/exe", argv);
+		}
+	}
 	setvbuf(stdout, nullptr, _IOLBF, 0);
 	if (!mfmt::selftest()) { fprintf(stderr, "INFRA-ERROR independent codec self-test failed\n"); return 2; }
 	std::string cmd = argv[1];
